@@ -43,18 +43,56 @@ SLUGS = {
     "C17_change2": ("mutex-debug-blocks-with-free-key", "Mutex Debug takes the thread's key if it is free and does a blocking lock", "formatting a Mutex held by another thread from a thread whose key is not alive"),
 }
 
+SLUGS2 = {
+    "C01_change1": ("owned-get-ptrs-exposes-children", "OwnedLockCollection::get_ptrs hands out its children instead of itself: an enclosing sorting collection locks them in address order while owned.lock() uses listing order", "an owned collection whose listing order differs from address order, used both directly and nested in a sorting collection, plus the interleaving"),
+    "C01_change2": ("threadkey-get-then-some-again", "ThreadKey::get builds the key eagerly again (then_some): a refused get() releases the key in use, the next get() issues a second key (re-seeds repaired defect D10)", "key in use and ThreadKey::get() called twice"),
+    "C02_change1": ("rwlock-scoped-read-double-release-on-panic", "RwLock::scoped_read/scoped_try_read release through a dropped RwLockReadRef but keep the unwind handler: a panicking closure releases twice", "bare RwLock, scoped read, panicking closure, a second concurrent reader, then a writer"),
+    "C02_change2": ("poisonable-try-write-takes-shared", "Poisonable's RawLock::raw_try_write forwards to inner.raw_try_read: Poisonable::scoped_try_lock holds only shared access while handing out &mut", "Poisonable over RwLock(s), scoped_try_lock, a concurrent reader or second scoped_try_lock"),
+    "C03_change1": ("threadkey-get-forge-eager", "ThreadKey::get uses then_some(Self::forge()) (same effect as D10, different spelling)", "key out, then get() called twice on the same thread"),
+    "C03_change2": ("unlock-all-plain-loop", "utils::unlock_all is a plain loop again: a panicking unlock leaves every later lock held while the key goes back (re-seeds repaired defect D6)", "a raw lock whose unlock panics, not last in lock order, released through a collection"),
+    "C04_change1": ("owned-try-blocks-after-first", "OwnedLockCollection::raw_try_write/read try only the first leaf and take the rest with the blocking ordered_*", "owned collection with >= 2 leaves, a try call, another thread mid-release (member 0 released, member 1 still held)"),
+    "C04_change2": ("poisonable-try-leaks-when-poisoned", "Poisonable::raw_try_* return inner.raw_try_*() && !is_poisoned(): on a poisoned wrapper the inner locks are taken and false is returned without releasing", "Poisonable already poisoned + scoped_try_lock / scoped_try_read"),
+    "C05_change1": ("rwlock-scoped-try-read-double-release", "RwLock::scoped_try_read releases via a guard and keeps the old unwind handler: a panicking closure releases twice", "bare RwLock, scoped_try_read, panicking closure"),
+    "C05_change2": ("ref-try-read-builds-guard-first", "RefLockCollection::try_read builds the LockGuard before raw_try_read; a refusal drops the read guards and releases locks it never acquired", "Ref collection, guard API, try_read refused by a writer on one member"),
+    "C06_change1": ("keycell-claim-counter", "KeyCell counts claims: a refused get() adds a claim that is never rolled back, so after the key is dropped get() returns None for ever", "a get() issued while the key is alive, then the key is dropped"),
+    "C06_change2": ("collection-unlock-double-frees-key", "collections' unlock/unlock_read go through LockGuard::into_key which ptr::reads the key and then drops self (dropping the key too)", "key handed back through a collection's unlock, then get() while that key is held"),
+    "C07_change1": ("dup-check-disjoint-pairs", "ordered_contains_duplicates uses chunks_exact(2) instead of windows(2)", ">= 3 locks with an odd number of listed locks below the duplicated one in address order"),
+    "C07_change2": ("owned-collection-shared-iteration", "OwnedLockCollection gains IntoIterator for &/&mut, iter(), iter_mut(): members reachable by shared reference can be listed next to their owner", "try_new((&owned, member)) with member obtained through iter()"),
+    "C08_change1": ("ordered-read-takes-free-locks-first", "ordered_read try-reads every lock first and then blocks on the refused ones while holding the others", "blocking read with a lower-address member write-held at that moment"),
+    "C08_change2": ("owned-raw-read-sorted", "OwnedLockCollection::raw_read uses get_locks (sorted) while every other method uses listing order", "owned collection whose listing order differs from address order, read vs write through sorting collections"),
+    "C09_change1": ("retry-read-waits-for-last-member", "retrying raw_read blocks in place on the last member when its try-read is refused, keeping the other members read-held", "retrying read, >= 2 locks, refused member is the last one"),
+    "C09_change2": ("rwlock-try-read-falls-back-to-blocking", "RwLock::raw_try_read blocks on lock_shared when the try failed but is_locked_exclusive() says no writer holds it (check-then-act)", "a writer releasing between the failed try and the check, then another writer"),
+    "C10_change1": ("poisonable-lock-samples-flag-early", "Poisonable::lock reads the poison flag before blocking on the inner lock", "a thread already blocked inside lock() when the holder panics"),
+    "C10_change2": ("poison-flag-toggles", "PoisonFlag::poison uses fetch_xor: a second panic without clear_poison un-poisons", "two panics through holds on the same Poisonable with no clear in between"),
+    "C11_change1": ("rwlock-scoped-try-read-double-release-2", "same site as C05_change1 (independently seeded)", "bare RwLock scoped_try_read with a panicking closure"),
+    "C11_change2": ("collection-scoped-read-no-unwind-handler", "utils::scoped_read lost its handle_unwind: a panicking closure leaks shared access to every member", "a panic inside a collection's blocking scoped_read"),
+    "C12_change1": ("unlock-all-single-catch", "unlock_all wraps the whole loop in one catch_unwind and releases the tail unprotected", ">= 3 locks with two panicking releases followed by a healthy lock"),
+    "C12_change2": ("read-ref-drop-bypasses-kill", "RwLockReadRef::drop calls raw.unlock_shared() directly: a panicking release no longer kills the lock", "read guard drop with a panicking unlock_shared, then any acquisition"),
+    "C13_change1": ("poisonable-inherits-exclusive-read-defaults", "RawLock read methods get exclusive defaults and Poisonable's read delegations are deleted", "Poisonable scoped_try_read / scoped_read with a concurrent reader"),
+    "C13_change2": ("rwlock-scoped-try-write-shared", "RwLock::scoped_try_write acquires and releases in shared mode", "bare RwLock, scoped_try_write while read-held by another thread"),
+    "C14_change1": ("mutexguard-send-with-guardsend", "unsafe impl Send for MutexGuard where R::GuardMarker: Send", "a raw mutex whose GuardMarker is GuardSend"),
+    "C14_change2": ("read-ref-clone", "impl Clone for RwLockReadRef (the clone takes another share)", "cloning a read hold out of a collection guard, then unlock_read"),
+    "C15_change1": ("ref-new-without-owned-bound", "RefLockCollection::new moved into the impl block without the OwnedLockable bound", "Ref::new over references containing a duplicate"),
+    "C15_change2": ("boxed-child-free-lifetime", "BoxedLockCollection::child returns &'a L with a free lifetime", "letting the result of child() outlive the collection"),
+    "C16_change1": ("boxed-drop-skips-when-panicking", "Drop for BoxedLockCollection returns early when thread::panicking()", "a boxed collection dropped by an unwind"),
+    "C16_change2": ("boxed-into-iter-ptr-read", "IntoIterator for BoxedLockCollection ptr::reads the child without forgetting self: every value is dropped twice", "consuming into_iter of a boxed collection with an iterable child"),
+    "C17_change1": ("ref-debug-locks-collection", "RefLockCollection Debug try-locks the first lock and takes the rest with the blocking ordered_write", "formatting a Ref collection whose first lock is free and another member is held"),
+    "C17_change2": ("boxed-debug-probe-leaks", "BoxedLockCollection Debug probes members with raw_try_read via any() and never rolls back on short-circuit", "formatting a boxed collection with a non-first member write-held"),
+}
+
 ROOT = "/verif/seeded"
 
 
 def main():
     os.makedirs(ROOT, exist_ok=True)
-    for key, (slug, what, needs) in sorted(SLUGS.items()):
+    items = [(1, k, v) for k, v in sorted(SLUGS.items())] + [(2, k, v) for k, v in sorted(SLUGS2.items())]
+    for rnd, key, (slug, what, needs) in items:
         prop, ch = key.split("_")
-        src = "/tmp/seed-%s/%s" % (prop, ch)
+        src = ("/tmp/seed-%s/%s" if rnd == 1 else "/tmp/seed2-%s/%s") % (prop, ch)
         if not os.path.isdir(src):
             print("missing", src)
             continue
-        sid = "%s-%s-%s" % (prop, ch[-1], slug)
+        sid = "%s-%s-%s" % (prop, ch[-1] if rnd == 1 else str(int(ch[-1]) + 2), slug)
         d = os.path.join(ROOT, sid)
         os.makedirs(d, exist_ok=True)
         shutil.copy(os.path.join(src, "patch.diff"), os.path.join(d, "patch.diff"))
@@ -65,7 +103,7 @@ def main():
         if os.path.exists(os.path.join(src, "README.md")):
             shutil.copy(os.path.join(src, "README.md"), os.path.join(d, "AUTHOR_README.md"))
         verify = {}
-        vf = "/tmp/verify-results/%s.json" % key
+        vf = ("/tmp/verify-results/%s.json" if rnd == 1 else "/tmp/verify2-results/%s.json") % key
         if os.path.exists(vf):
             try:
                 verify = json.load(open(vf))
@@ -74,7 +112,7 @@ def main():
             except Exception:
                 pass
         detect = {}
-        df = "/tmp/detect/results/%s.json" % key
+        df = ("/tmp/detect/results/%s.json" if rnd == 1 else "/tmp/detect/results2/%s.json") % key
         if os.path.exists(df):
             try:
                 detect = json.load(open(df))
@@ -82,7 +120,7 @@ def main():
                 pass
         # final run of the property's own check with the committed machinery, on /repo itself
         final = {}
-        ff = "/tmp/detect/final/%s.json" % key
+        ff = ("/tmp/detect/final/%s.json" if rnd == 1 else "/tmp/detect/final2/%s.json") % key
         if os.path.exists(ff):
             try:
                 final = json.load(open(ff))
@@ -96,7 +134,7 @@ def main():
             breaks_property=prop,
             change=what,
             needs_to_manifest=needs,
-            origin="written by an independent sub-agent that saw only the property text and a scratch worktree of /repo",
+            origin="round %d: written by an independent sub-agent that saw only the property text%s and a scratch worktree of /repo" % (rnd, "" if rnd == 1 else " (plus one-line descriptions of the round-1 changes, to avoid repeats)"),
             confirmed=dict(
                 how="lib/seedtest.py verify (scratch worktree of /repo at HEAD): patch applies; cargo test --offline --workspace passes with the patch; demo.rs %s" % (
                     "does not compile without the patch and compiles + shows the harm with it" if prop in ("C14", "C15") else "passes without the patch and fails with it"),
